@@ -394,7 +394,6 @@ theorem agg_timing_failures_ignore (i : AggIn) (h : WFAgg i) :
   all_goals (try simp only [Spec.aggConds, Spec.attWindow] at *)
   all_goals (try gossip_norm)
   all_goals (first | (simp_all; done) | (simp_all; omega) | (rcases hfn with hfn | hfn <;> simp_all <;> omega) | skip)
-  all_goals (trace_state; sorry)
 
 set_option maxHeartbeats 400000 in
 /-- FULL STATEMENT (false for the current code, see `agg_accepts_non_checkpoint_target`):
@@ -673,5 +672,110 @@ theorem syncMsg_marks_only_on_accept (i : SyncMsgIn) :
     (validateSyncMessage i).marks ≠ [] → (validateSyncMessage i).verdict = .ACCEPT := by
   fun_cases validateSyncMessage i
   all_goals (simp_all [ign, rej, acc])
+
+/-! ### sync_committee_contribution_and_proof -/
+
+/-- `IndexedSyncCommittee.Subcommittee` is the index slice of `get_sync_subcommittee_pubkeys` -/
+theorem subcommittee_eq_spec (size : UInt64) (comm : List UInt64) (sub : UInt64) (hsub : sub.toNat < 4) :
+    subcommittee size comm sub = some (Spec.syncSubcommittee size.toNat comm sub.toNat) := by
+  unfold subcommittee Spec.syncSubcommittee SYNC_COMMITTEE_SUBNET_COUNT
+  have h4 : (4 : UInt64).toNat = 4 := by decide
+  have hnot : ¬ (sub ≥ 4) := by
+    intro h; have := UInt64.le_iff_toNat_le.mp h; rw [h4] at this; omega
+  have hs := size.toNat_lt
+  have hmul : (size / 4 * sub).toNat = sub.toNat * (size.toNat / 4) := by
+    rw [UInt64.toNat_mul, UInt64.toNat_div, h4, Nat.mul_comm]
+    apply Nat.mod_eq_of_lt
+    have : sub.toNat * (size.toNat / 4) ≤ 3 * (size.toNat / 4) := Nat.mul_le_mul_right _ (by omega)
+    omega
+  simp [hnot, hmul, UInt64.toNat_div, h4]
+
+structure WFContrib (i : ContribIn) : Prop where
+  slot : i.slot.toNat + 1 < 2 ^ 64
+  curMembers : ∀ v ∈ i.curCommittee, v.toNat < i.nVals.toNat
+  nextMembers : ∀ v ∈ i.nextCommittee, v.toNat < i.nVals.toNat
+
+theorem contrib_marks_only_on_accept (i : ContribIn) :
+    (validateContribution i).marks ≠ [] → (validateContribution i).verdict = .ACCEPT := by
+  fun_cases validateContribution i
+  all_goals (simp_all [ign, rej, acc])
+
+theorem mem_take_drop {l : List UInt64} {a b : Nat} {v : UInt64} (h : v ∈ (l.drop a).take b) : v ∈ l :=
+  List.mem_of_mem_drop (List.mem_of_mem_take h)
+
+theorem contrib_accept_iff_all_conditions (i : ContribIn) (h : WFContrib i) :
+    (validateContribution i).verdict = .ACCEPT ↔ allHold (Spec.contribConds i) = true := by
+  obtain ⟨hslot, hcm, hnm⟩ := h
+  have hwin := slotSpanOk_iff i.minSlot i.maxSlot i.slot 0
+  have h0 : (0 : UInt64).toNat = 0 := by decide
+  rw [h0] at hwin
+  have hagg := isSyncAggregator_eq_spec i.syncSize i.selProof
+  have h4 : SYNC_COMMITTEE_SUBNET_COUNT.toNat = 4 := by decide
+  have hsc := fun c hs => subcommittee_eq_spec i.syncSize c i.subIdx hs
+  have hmC : ∀ v, v ∈ Spec.syncSubcommittee i.syncSize.toNat i.curCommittee i.subIdx.toNat → v.toNat < i.nVals.toNat :=
+    fun v hv => hcm v (mem_take_drop hv)
+  have hmN : ∀ v, v ∈ Spec.syncSubcommittee i.syncSize.toNat i.nextCommittee i.subIdx.toNat → v.toNat < i.nVals.toNat :=
+    fun v hv => hnm v (mem_take_drop hv)
+  rcases syncCommitteeFor_choice i.spe.toNat i.epp.toNat i.slot.toNat i.curCommittee i.nextCommittee with hc | hc
+  all_goals (
+    have hcomm := syncCommitteeForSlot_eq_spec i.spe i.epp i.slot i.curCommittee i.nextCommittee hslot
+    have hcs := syncCommitteeForSlot_eq_spec i.spe i.epp i.slot i.contribSigCur i.contribSigNext hslot
+    fun_cases validateContribution i
+    all_goals (try simp only [Spec.contribConds, Spec.currentSlotCond] at *)
+    all_goals (try gossip_norm)
+    all_goals (try simp only [hcomm, hcs] at *)
+    all_goals (try simp only [hc] at *)
+    all_goals (first | (simp_all; done) | (simp_all; omega) | (simp_all; intros; first | (have hm := hmC _ ‹i.aggregator ∈ _›; omega) | (have hm := hmN _ ‹i.aggregator ∈ _›; omega))))
+
+theorem contrib_violated_never_accept (i : ContribIn) (h : WFContrib i) (c : Cond) (hc : c ∈ Spec.contribConds i)
+    (hv : c.holds = false) : (validateContribution i).verdict ≠ .ACCEPT :=
+  never_accept_of_iff (contrib_accept_iff_all_conditions i h) hc hv
+
+theorem contrib_timing_failures_ignore (i : ContribIn) (h : WFContrib i) :
+    allHold (Spec.contribConds i) = false → onlyTimingFails (Spec.contribConds i) = true →
+    (validateContribution i).verdict = .IGNORE := by
+  obtain ⟨hslot, hcm, hnm⟩ := h
+  have hwin := slotSpanOk_iff i.minSlot i.maxSlot i.slot 0
+  have h0 : (0 : UInt64).toNat = 0 := by decide
+  rw [h0] at hwin
+  have hagg := isSyncAggregator_eq_spec i.syncSize i.selProof
+  have h4 : SYNC_COMMITTEE_SUBNET_COUNT.toNat = 4 := by decide
+  have hsc := fun c hs => subcommittee_eq_spec i.syncSize c i.subIdx hs
+  have hmC : ∀ v, v ∈ Spec.syncSubcommittee i.syncSize.toNat i.curCommittee i.subIdx.toNat → v.toNat < i.nVals.toNat :=
+    fun v hv => hcm v (mem_take_drop hv)
+  have hmN : ∀ v, v ∈ Spec.syncSubcommittee i.syncSize.toNat i.nextCommittee i.subIdx.toNat → v.toNat < i.nVals.toNat :=
+    fun v hv => hnm v (mem_take_drop hv)
+  rcases syncCommitteeFor_choice i.spe.toNat i.epp.toNat i.slot.toNat i.curCommittee i.nextCommittee with hc | hc
+  all_goals (
+    have hcomm := syncCommitteeForSlot_eq_spec i.spe i.epp i.slot i.curCommittee i.nextCommittee hslot
+    have hcs := syncCommitteeForSlot_eq_spec i.spe i.epp i.slot i.contribSigCur i.contribSigNext hslot
+    fun_cases validateContribution i
+    all_goals (try simp only [Spec.contribConds, Spec.currentSlotCond] at *)
+    all_goals (try gossip_norm)
+    all_goals (try simp only [hcomm, hcs] at *)
+    all_goals (try simp only [hc] at *)
+    all_goals (first | (simp_all; done) | (simp_all; omega) | (simp_all; intros; first | (have hm := hmC _ ‹i.aggregator ∈ _›; omega) | (have hm := hmN _ ‹i.aggregator ∈ _›; omega))))
+
+/-! ### attester_slashing
+
+Proved here: `marks_only_on_accept`. The `accept_iff` / `timing` theorems for attester slashings need list lemmas
+about `ZigZagJoin` (intersection of strictly sorted lists) and `Filter` that are not done; the validator is covered by
+the `c12` correspondence (model = Go and spec-allowed verdict on every generated line) only.
+FULL STATEMENTS (not proved): `(validateAttesterSlashing i).verdict = .ACCEPT ↔ allHold (Spec.aslashConds i)`,
+`allHold … = false → onlyTimingFails … → verdict = IGNORE`. -/
+
+theorem aslash_marks_only_on_accept_partial (i : ASlashIn) :
+    (validateAttesterSlashing i).marks ≠ [] → (validateAttesterSlashing i).verdict = .ACCEPT := by
+  fun_cases validateAttesterSlashing i
+  all_goals (simp_all [ign, rej, acc])
+
+def aslashOk : ASlashIn :=
+  { src1 := 1, tgt1 := 2, src2 := 1, tgt2 := 2, dataEqual := false, idx1 := [3, 5, 9], idx2 := [5, 9, 11],
+    maxPerComm := 2048, allSeen := false, headOk := true, nVals := 64,
+    vals := [(3, false, 0, 18446744073709551615), (5, false, 0, 18446744073709551615),
+             (9, false, 0, 18446744073709551615), (11, false, 0, 18446744073709551615)],
+    curEpoch := 3, sig1 := true, sig2 := true }
+example : (validateAttesterSlashing aslashOk).verdict = .ACCEPT ∧ allHold (Spec.aslashConds aslashOk) = true ∧
+    (validateAttesterSlashing aslashOk).marks = [call "MarkAttesterSlashings" [5, 9]] := by decide +kernel
 
 end Zrnt.Proofs.C12
